@@ -4,6 +4,7 @@ package main
 
 import (
 	"math/rand/v2"
+	"reflect"
 	"strings"
 
 	"github.com/WuKongIM/WuKongIM/internal/verifh/vh"
@@ -295,11 +296,15 @@ func genBatch(r *rand.Rand) (replication.ExchangeBatch, string) {
 		class = "bg"
 	}
 	n := 1 + r.IntN(3)
-	switch r.IntN(40) {
+	switch r.IntN(60) {
 	case 0:
-		n, class = 256, class+"-256items"
+		if b.Priority == replication.ExchangePriorityForeground || genTier == "thorough" {
+			n, class = 256, class+"-256items"
+		}
 	case 1:
-		n, class = 257, class+"-257items"
+		if b.Priority == replication.ExchangePriorityForeground || genTier == "thorough" {
+			n, class = 257, class+"-257items"
+		}
 	case 2:
 		n, class = 0, class+"-0items"
 	}
@@ -428,13 +433,14 @@ func genBatchResult(r *rand.Rand) (replication.ExchangeBatchResult, string) {
 	b := replication.ExchangeBatchResult{Version: replication.ExchangeVersion}
 	class := "small"
 	n := 1 + r.IntN(3)
-	big := r.IntN(40)
-	switch big {
-	case 0:
-		n, class = 256, "256items"
-	case 1:
+	switch r.IntN(120) {
+	case 0: // ~220 KB on the wire, ~1 MB of case text: thorough tier only
+		if genTier == "thorough" {
+			n, class = 256, "256items"
+		}
+	case 1, 2:
 		n, class = 257, "257items"
-	case 2:
+	case 3, 4, 5:
 		n, class = 0, "0items"
 	}
 	for i := 0; i < n; i++ {
@@ -506,27 +512,53 @@ var sizeofRecord = func() uintptr {
 }()
 
 func coqIdent(key ch.ChannelKey, id ch.ChannelID) string {
-	return vh.App("ChanIdent", vh.HexS(string(key)), vh.HexS(id.ID), vh.N(uint64(id.Type)))
+	if key == "" && id == (ch.ChannelID{}) {
+		return "zI"
+	}
+	return vh.App("ChanIdent", hexS(string(key)), hexS(id.ID), vh.N(uint64(id.Type)))
+}
+
+func hex32(d [32]byte) string {
+	if d == ([32]byte{}) {
+		return "z32"
+	}
+	return vh.Hex(d[:])
+}
+
+func hexS(s string) string {
+	if s == "" {
+		return "[]"
+	}
+	return vh.HexS(s)
 }
 
 func coqManifest(m ch.ProposalManifest) string {
+	if m == (ch.ProposalManifest{}) {
+		return "zM"
+	}
 	return vh.App("Manifest", vh.N(uint64(m.Version)), vh.N(m.ChannelEpoch), vh.N(m.LeaderTerm), vh.N(m.FenceVersion),
-		vh.Hex(m.CommandID[:]), vh.N(m.BaseOffset), vh.N(m.LastOffset), vh.N(m.PreviousTerm), vh.N(m.PreviousIndex),
-		vh.Hex(m.PreviousDigest[:]), vh.Hex(m.Digest[:]))
+		hex32(m.CommandID), vh.N(m.BaseOffset), vh.N(m.LastOffset), vh.N(m.PreviousTerm), vh.N(m.PreviousIndex),
+		hex32(m.PreviousDigest), hex32(m.Digest))
 }
 
 func coqEntry(e ch.EntryIdentity) string {
+	if e == (ch.EntryIdentity{}) {
+		return "zE"
+	}
 	return vh.App("EntryIdent", vh.N(uint64(e.Version)), vh.N(e.ChannelEpoch), vh.N(e.LeaderTerm), vh.N(e.FenceVersion),
-		vh.N(e.Index), vh.N(e.PreviousTerm), vh.N(e.PreviousIndex), vh.Hex(e.CommandID[:]), vh.Hex(e.PreviousDigest[:]), vh.Hex(e.Digest[:]))
+		vh.N(e.Index), vh.N(e.PreviousTerm), vh.N(e.PreviousIndex), hex32(e.CommandID), hex32(e.PreviousDigest), hex32(e.Digest))
 }
 
 func coqState(s replication.ReplicaState) string {
+	if s == (replication.ReplicaState{}) {
+		return "zS"
+	}
 	return vh.App("ReplicaState", vh.N(s.LEO), vh.N(s.Committed), coqManifest(s.Manifest), coqEntry(s.TailIdentity))
 }
 
 func coqRecord(x ch.Record) string {
-	return vh.App("RRecord", vh.N(x.ID), vh.N(x.Index), vh.N(x.Epoch), vh.N(uint64(x.Setting)), vh.HexS(x.FromUID), vh.HexS(x.ClientMsgNo),
-		vh.Z(x.ServerTimestampMS), vh.B(x.SyncOnce), vh.Hex(x.Payload), vh.N(uint64(x.SizeBytes)))
+	return vh.App("RRecord", vh.N(x.ID), vh.N(x.Index), vh.N(x.Epoch), vh.N(uint64(x.Setting)), hexS(x.FromUID), hexS(x.ClientMsgNo),
+		vh.Z(x.ServerTimestampMS), vh.B(x.SyncOnce), bigHex(x.Payload), vh.N(uint64(x.SizeBytes)))
 }
 
 func coqRecords(recs []ch.Record) string {
@@ -580,19 +612,26 @@ func coqBatch(b replication.ExchangeBatch) string {
 func coqBatchResult(b replication.ExchangeBatchResult) string {
 	items := mapS(b.Items, func(it replication.ExchangeItemResult) string {
 		rp := it.Replicate.Proof
-		rep := vh.App("ReplicateResult", vh.N(uint64(it.Replicate.Status)), vh.N(it.Replicate.LastOffset), vh.N(it.Replicate.NeedFrom),
-			vh.App("ReplicateProof", coqIdent(rp.ChannelKey, rp.ChannelID), vh.N(uint64(rp.Leader)), vh.N(uint64(rp.Follower)), coqManifest(rp.Manifest)))
+		rep, probe, fetch := "zRR", "zPR", "zFR"
+		if it.Replicate != (replication.ReplicateResult{}) {
+			rep = vh.App("ReplicateResult", vh.N(uint64(it.Replicate.Status)), vh.N(it.Replicate.LastOffset), vh.N(it.Replicate.NeedFrom),
+				vh.App("ReplicateProof", coqIdent(rp.ChannelKey, rp.ChannelID), vh.N(uint64(rp.Leader)), vh.N(uint64(rp.Follower)), coqManifest(rp.Manifest)))
+		}
 		pp := it.Probe.Proof
-		probe := vh.App("ProbeResult", coqProbe(pp.ChannelKey, pp.ChannelID, pp.Leader, pp.Follower, pp.Indexes), coqState(it.Probe.State),
-			optList(it.Probe.Entries == nil, mapS(it.Probe.Entries, func(e replication.EntryProbe) string {
-				return vh.App("EntryProbe", vh.N(e.Index), vh.B(e.Present), coqEntry(e.Identity))
-			})))
+		if !reflect.DeepEqual(it.Probe, replication.ProbeResult{}) {
+			probe = vh.App("ProbeResult", coqProbe(pp.ChannelKey, pp.ChannelID, pp.Leader, pp.Follower, pp.Indexes), coqState(it.Probe.State),
+				optList(it.Probe.Entries == nil, mapS(it.Probe.Entries, func(e replication.EntryProbe) string {
+					return vh.App("EntryProbe", vh.N(e.Index), vh.B(e.Present), coqEntry(e.Identity))
+				})))
+		}
 		fp := it.Fetch.Proof
-		fetch := vh.App("FetchResult", coqFetch(fp.ChannelKey, fp.ChannelID, fp.Leader, fp.Follower, fp.Expected, fp.From, fp.Through, fp.Previous, fp.MaxBytes),
-			coqState(it.Fetch.State),
-			optList(it.Fetch.Proposals == nil, mapS(it.Fetch.Proposals, func(p replication.RecoveryProposal) string {
-				return vh.App("RecoveryProposal", coqManifest(p.Manifest), coqRecords(p.Records))
-			})))
+		if !reflect.DeepEqual(it.Fetch, replication.FetchResult{}) {
+			fetch = vh.App("FetchResult", coqFetch(fp.ChannelKey, fp.ChannelID, fp.Leader, fp.Follower, fp.Expected, fp.From, fp.Through, fp.Previous, fp.MaxBytes),
+				coqState(it.Fetch.State),
+				optList(it.Fetch.Proposals == nil, mapS(it.Fetch.Proposals, func(p replication.RecoveryProposal) string {
+					return vh.App("RecoveryProposal", coqManifest(p.Manifest), coqRecords(p.Records))
+				})))
+		}
 		return vh.App("ExchangeItemResult", vh.N(it.RequestID), rep, probe, fetch)
 	})
 	return vh.App("ExchangeBatchResult", vh.N(uint64(b.Version)), vh.List(items))
